@@ -267,32 +267,39 @@ deriving DecidableEq, Repr
 def selfNonce (s : St) (miner : Id) : Int :=
   if present s.accts miner then (get s.accts miner).nonce + 1 else 1
 
+/-- the built-in transaction as it is executed: sent by the generator with its next nonce. -/
+def builtinTxn (cfg : Cfg) (s : St) (b : PTxn) : PTxn :=
+  { b with txn := { b.txn with sender := cfg.miner, nonce := selfNonce s cfg.miner } }
+
 /-- the loop over the built-in transactions at the end of `generateBlock`. -/
 def builtinLoop (cfg : Cfg) (waitOver : Bool) : List (BuiltinKind × PTxn) → GS → Int → Except GenErr GS
   | [], g, _ => .ok g
   | (k, b) :: bs, g, n =>
-    let t : Txn := { b.txn with sender := cfg.miner, nonce := selfNonce g.st cfg.miner }
-    let b' : PTxn := { b with txn := t }
-    let r := step cfg.feeOn g.st t (b.res g.st)
-    let g' : GS :=
-      if r.2 = Status.rejected then g
-      else { g with st := r.1, incl := g.incl ++ [⟨Key.builtin k, b', r.2⟩], trace := g.trace ++ [r.1] }
     if !waitOver && decide (n + 1 < cfg.minBlockSize) then .error .insufficient
-    else builtinLoop cfg waitOver bs g' (n + 1)
+    else if (step cfg.feeOn g.st (builtinTxn cfg g.st b).txn ((builtinTxn cfg g.st b).res g.st)).2 = Status.rejected then
+      builtinLoop cfg waitOver bs g (n + 1)          -- `processTxn` failed: logged, not in the block, still counted
+    else
+      builtinLoop cfg waitOver bs
+        { g with
+          st := (step cfg.feeOn g.st (builtinTxn cfg g.st b).txn ((builtinTxn cfg g.st b).res g.st)).1,
+          incl := g.incl ++ [⟨Key.builtin k, builtinTxn cfg g.st b, (step cfg.feeOn g.st (builtinTxn cfg g.st b).txn ((builtinTxn cfg g.st b).res g.st)).2⟩],
+          trace := g.trace ++ [(step cfg.feeOn g.st (builtinTxn cfg g.st b).txn ((builtinTxn cfg g.st b).res g.st)).1] }
+        (n + 1)
 
 def builtinsCost : List (BuiltinKind × PTxn) → Int
   | [] => 0
   | (_, b) :: bs => wrap64 (b.cost.getD 0 + builtinsCost bs)
 
+/-- pool iteration followed by the loop over the promoted transactions; `true` = the iteration returned an error. -/
+def poolPhase (cfg : Cfg) (prior : St) (pool : List PTxn) (bi : Builtins) (fuel : Nat) : GS × Bool :=
+  if (iterate cfg (GS.init prior (builtinsCost bi.list)) pool).2 then ((iterate cfg (GS.init prior (builtinsCost bi.list)) pool).1, true)
+  else (currentLoop cfg fuel 0 (iterate cfg (GS.init prior (builtinsCost bi.list)) pool).1, false)
+
 /-- `generateBlock`. -/
 def generate (cfg : Cfg) (prior : St) (pool : List PTxn) (bi : Builtins) (waitOver : Bool) (fuel : Nat) : Except GenErr GS :=
   if bi.list.any (fun b => b.2.cost.isNone) then .error .builtinCost
-  else
-    let r := iterate cfg (GS.init prior (builtinsCost bi.list)) pool
-    if r.2 then .error .iterError
-    else
-      let g := currentLoop cfg fuel 0 r.1
-      builtinLoop cfg waitOver bi.list g g.incl.length
+  else if (poolPhase cfg prior pool bi fuel).2 then .error .iterError
+  else builtinLoop cfg waitOver bi.list (poolPhase cfg prior pool bi fuel).1 (poolPhase cfg prior pool bi fuel).1.incl.length
 
 /-! ## the verifier -/
 
